@@ -28,6 +28,20 @@ class FuncBoom(Exception):
     pass
 
 
+def _producer_failure(op, where):
+    """What a failing producer raises: an ordinary exception, or a cancellation that is *not* aimed at the
+    buffer's own task (a producer awaiting something that somebody else cancelled)."""
+    if op.get('fail_kind') == 'cancel':
+        return aio.CancelledError('producer cancelled at %r' % (where,))
+    if op.get('fail_kind') == 'base':
+        return ProducerBaseBoom(where)
+    return ProducerBoom(where)
+
+
+class ProducerBaseBoom(BaseException):
+    pass
+
+
 class PlainIter:
     """An iterator that is not a generator."""
 
@@ -109,11 +123,11 @@ def run(case, max_steps=120000):
             if op['op'] == 'call':
                 buf(op['x'])
             elif op['op'] == 'await':
-                async def aw(v=op['x'], f=op.get('fail'), d=d):
+                async def aw(v=op['x'], f=op.get('fail'), d=d, op=op):
                     if d:
                         await aio.sleep(d)
                     if f:
-                        raise ProducerBoom(v)
+                        raise _producer_failure(op, v)
                     return v
                 c = aw()
                 w.keep.append(c)
@@ -127,10 +141,10 @@ def run(case, max_steps=120000):
                 elif kind == 'range':
                     buf.map(range(xs[0], xs[0] + len(rec['deliver'])) if rec['deliver'] else range(0))
                 else:
-                    def gen(p=xs, f=f, d=d):
+                    def gen(p=xs, f=f, d=d, op=op):
                         for i, v in enumerate(p):
                             if i == f:
-                                raise ProducerBoom(i)
+                                raise ProducerBoom(i)      # a sync iterator fails with an ordinary exception
                             if d:
                                 sim.sleep(d)
                             yield v
@@ -140,15 +154,15 @@ def run(case, max_steps=120000):
                     w.keep.append(g)
                     buf.map(g if kind == 'gen' else PlainIter(g))
             elif op['op'] == 'amap':
-                async def agen(p=list(op['xs']), f=op.get('fail_at'), d=d):
+                async def agen(p=list(op['xs']), f=op.get('fail_at'), d=d, op=op):
                     for i, v in enumerate(p):
                         if i == f:
-                            raise ProducerBoom(i)
+                            raise _producer_failure(op, i)
                         if d:
                             await aio.sleep(d)
                         yield v
                     if f == len(p):
-                        raise ProducerBoom(f)
+                        raise _producer_failure(op, f)
                 g = agen()
                 w.keep.append(g)
                 buf.amap(g)
@@ -190,7 +204,11 @@ def run(case, max_steps=120000):
                     await aio.sleep(d)
                 for _ in range(op.get('iters', 0)):      # position inside the instant, in loop iterations
                     await aio.sleep(0)
-                if op['op'] == 'wait':
+                if op['op'] == 'wait' and op.get('inline'):
+                    # the submitting coroutine itself calls wait() in the same step (buf(x); await buf.wait()),
+                    # so nothing - not even the scheduled queue put - runs in between
+                    await do_wait(buf, op['cancel'], 'owner')
+                elif op['op'] == 'wait':
                     t = loop.create_task(do_wait(buf, op['cancel'], 'owner'))
                     w.keep.append(t)
                     pend.append(t)
